@@ -143,8 +143,11 @@ inline std::string driftSpec(const Model* model)
 
 // Emit the request line of one target: oracle tables from the plain single-pair API.
 // 'rank' gives the ranks (in dbin) of the neighbourhood samples as reported by the library.
+// For a block target, `disc1` / `disc2` hold the offsets of the two discretisations of the block: the right-hand side is
+// the average of the point covariances over `disc1`, the variance of the target the average over `disc1` x `disc2`.
 inline std::string krigRequest(const Db* dbin, const Db* dbout, Model* model, int itarget,
-                               const VectorInt& nbgh, int ndim, int nvar, int nfex, bool hasVerr)
+                               const VectorInt& nbgh, int ndim, int nvar, int nfex, bool hasVerr,
+                               const VectorVectorDouble* disc1 = nullptr, const VectorVectorDouble* disc2 = nullptr)
 {
   int nech = (int)nbgh.size();
   int nbfl = model->getDriftNumber();
@@ -166,9 +169,22 @@ inline std::string krigRequest(const Db* dbin, const Db* dbout, Model* model, in
   for (int a = 0; a < nvar; a++) for (int i = 0; i < nech; i++)
     for (int b = 0; b < nvar; b++) for (int j = 0; j < nech; j++)
       C[(i + a * nech) * n + (j + b * nech)] = (i == j) ? model->eval0(a, b, &mlhs) : model->eval(P[i], P[j], a, b, &mlhs);
-  for (int a = 0; a < nvar; a++) for (int i = 0; i < nech; i++) for (int b = 0; b < nvar; b++)
-    C0[(i + a * nech) * nvar + b] = model->eval(P[i], P0, a, b, &mrhs);
-  for (int a = 0; a < nvar; a++) for (int b = 0; b < nvar; b++) C00[a * nvar + b] = model->eval0(a, b, &mvar);
+  if (disc1 == nullptr)
+  {
+    for (int a = 0; a < nvar; a++) for (int i = 0; i < nech; i++) for (int b = 0; b < nvar; b++)
+      C0[(i + a * nech) * nvar + b] = model->eval(P[i], P0, a, b, &mrhs);
+    for (int a = 0; a < nvar; a++) for (int b = 0; b < nvar; b++) C00[a * nvar + b] = model->eval0(a, b, &mvar);
+  }
+  else
+  {
+    std::vector<SpacePoint> D1, D2;
+    for (const auto& d : *disc1) { VectorDouble c(c0); for (int k = 0; k < ndim; k++) c[k] += d[k]; D1.emplace_back(c); }
+    for (const auto& d : *disc2) { VectorDouble c(c0); for (int k = 0; k < ndim; k++) c[k] += d[k]; D2.emplace_back(c); }
+    for (int a = 0; a < nvar; a++) for (int i = 0; i < nech; i++) for (int b = 0; b < nvar; b++)
+    { double sum = 0.; for (auto& q : D1) sum += model->eval(P[i], q, a, b, &mrhs); C0[(i + a * nech) * nvar + b] = sum / (double)D1.size(); }
+    for (int a = 0; a < nvar; a++) for (int b = 0; b < nvar; b++)
+    { double sum = 0.; for (auto& q1 : D1) for (auto& q2 : D2) sum += model->eval(q1, q2, a, b, &mvar); C00[a * nvar + b] = sum / (double)(D1.size() * D2.size()); }
+  }
   for (int a = 0; a < nvar; a++) for (int i = 0; i < nech; i++) z[i + a * nech] = dbin->getZVariable(nbgh[i], a);
   if (hasVerr) { verr.resize(n); for (int a = 0; a < nvar; a++) for (int i = 0; i < nech; i++) verr[i + a * nech] = dbin->getLocVariable(ELoc::V, nbgh[i], a); }
   for (int i = 0; i < nech; i++)
